@@ -370,10 +370,10 @@ func readSection(reader *bufio.Reader, readN int) ([]byte, error) {
 	n := 0
 	for n < readN {
 		m, err := reader.Read(buf[n:])
+		n += m
 		if err != nil {
 			break
 		}
-		n += m
 	}
 
 	if err != nil {
